@@ -121,7 +121,7 @@ theorem refillData_buffer (c : Chunked (List Item)) (maxBuf : Nat) :
     split
     · right; rfl
     · split
-      · rcases readLineEnding flatSrc r' with ⟨res2, r''⟩
+      · rcases chunkEnd flatSrc c.reachedEof r' with ⟨res2, r''⟩
         cases res2 with
         | ok b => cases b <;> left <;> simp [hle]
         | err e => left; exact hle
